@@ -115,12 +115,12 @@ Definition n_fl_norm_in_premise := Eval vm_compute in count_true (fun c : list Z
 Print n_fl_norm_in_premise.
 
 (* Mul / Sqr on the implementation's outputs: for inputs of magnitude <= 8 the result
-   stands for the product modulo p and has magnitude 1 except for limb 2 (< 2^27) *)
+   stands for the product modulo p and has magnitude 1 except for limb 2 (<= 2^26 + 2^18 - 1 + 1 = 67371008, the bound proved in C14_Mul_correct) *)
 Definition mul_outb (l : list Z) : bool :=
   match l with
   | [a0; a1; a2; a3; a4; a5; a6; a7; a8; a9] =>
       forallb (fun x => (0 <=? x) && (x <=? 67108863)) [a0; a1; a3; a4; a5; a6; a7; a8] &&
-      (0 <=? a2) && (a2 <? 2 ^ 27) && (0 <=? a9) && (a9 <=? 4194303)
+      (0 <=? a2) && (a2 <=? 67371008) && (0 <=? a9) && (a9 <=? 4194303)
   | _ => false end.
 Definition pf_fl_fmul := Eval vm_compute in
   failing (fun c : list Z * list Z * list Z => let '(i, j, o) := c in
